@@ -94,6 +94,13 @@ def corpus(ctx, n_random, n_shaped, enum_widths, small_cap=None):
         # quick tier: every depth-1 form of width 3 is kept (the tail), the rest is a seeded sample
         keep = small[-800:]
         small = rng.sample(small[:-800], small_cap - 800) + keep
+    cc = exprgen.enumerate_cc(2)
+    if small_cap:
+        # quick tier: every one- and two-flag form, a seeded sample of the three-flag forms
+        cc = [e for e in cc if len(e.args) <= 2] + rng.sample([e for e in cc if len(e.args) == 3], 1200)
+    else:
+        cc += exprgen.enumerate_cc(8)[::7]
+    small = cc + small
     return exprs, small
 
 
@@ -159,7 +166,8 @@ def run(ctx, which):
         key = v.split(":")[0]
         counts[key] = counts.get(key, 0) + 1
         meaning = key in ("bad", "width", "illsized") or v.startswith("status:raised")
-        fixed = key == "notfixed" or v == "status:budget-exhausted"
+        # unbounded recursion is how a rule cycle shows up in a recursive rewriter: a termination failure
+        fixed = key == "notfixed" or v in ("status:budget-exhausted", "status:raised:RecursionError")
         if (which == "C01" and meaning) or (which == "C02" and fixed):
             ctx.violation("simplification-" + key, {"kind": m[0], "simplifier_or_rule": m[1], "before": m[2],
                                                     "after": m[3], "verdict": v})
